@@ -276,6 +276,12 @@ static json handle(json const &cmd)
     r["rc"] = rc; r["err"] = cvm::get_error(); r["errtext"] = P->err_text;
     if (cmd.value("finish", true)) { r["rc2"] = cv->setup_input() | cv->setup_output(); }
     r["ncv"] = cv->variables()->size(); r["nb"] = cv->biases.size();
+    {
+      json nm = json::array();
+      for (colvar *c : *(cv->variables())) nm.push_back(c->name);
+      for (colvarbias *b : cv->biases) nm.push_back(b->name);
+      r["names"] = nm;
+    }
     if (cmd.value("clear", true)) cvm::clear_error();
     return r;
   }
